@@ -639,6 +639,37 @@ def macho_part(run, quick):
                 else:
                     m[off:off + 1] = rng.randbytes(1)
             items.append((f + "#var", bytes(m), {}))
+    # fat (universal) files: a big-endian table of (cputype, cpusubtype, offset, size, align) followed by thin images; every
+    # architecture entry must come back as encoded and hold the thin image found at its offset
+    for n in range(20 if quick else 300):
+        thins = [FG.SynthMachO(rng).image for _ in range(rng.randrange(1, 4))]
+        off = 0x1000 * rng.randrange(1, 4)
+        ents, body = [], b""
+        for t in thins:
+            al = rng.choice([12, 14])
+            pad = (-(off + len(body))) % (1 << 12)
+            body += b"\0" * pad
+            ents.append((rng.choice([0x01000007, 0x0100000C, 7, 12]), rng.randrange(0, 4), off + len(body), len(t), al))
+            body += t
+        fat = struct.pack(">II", 0xCAFEBABE, len(thins)) + b"".join(struct.pack(">IIIII", *e) for e in ents)
+        fat = fat.ljust(off, b"\0") + body
+        run.count(("macho-fat", fat[:4096]), nontrivial=len(thins) >= 2)
+        run.hist("macho_kind", "fat")
+        rep = {"format": "macho-fat", "image": fat.hex() if len(fat) < 60000 else None, "archs": ents}
+        try:
+            p = macho.MachO(dataio(fat))
+            got = [(a.cputype, a.cpusubtype, a.offset, a["size"], a.align) for a in p.archs]
+        except Exception as x:
+            run.violation("macho|fat|raised|" + type(x).__name__, "MachO() raised %r on a fat file of %d valid thin images" % (x, len(thins)), rep)
+            continue
+        if got != ents:
+            run.violation("macho|fat|arch-table", "fat architecture table read as %s, the file encodes %s" % (got, ents), rep)
+            continue
+        for a, t in zip(p.archs, thins):
+            R = FG.read_macho(t)
+            diffs, _q = macho_compare(R, a.bin, rng)
+            for key, detail in diffs[:2]:
+                run.violation(key.replace("macho|", "macho|fat|", 1), detail + " [architecture at offset %#x of a fat file]" % a.offset, rep)
     for src, img, desc in items:
         run.count(("macho", img[:8192], src), nontrivial=True)
         run.hist("macho_kind", "synth" if src == "synth" else "sample")
@@ -861,7 +892,7 @@ def check(run):
                                 "harness/c14.py live_layouts (dump of the live structure classes into Coq literals)"]
     run.assumptions += ["PE import/TLS/load-config tables, Mach-O dyld info and ELF relocation/dynamic tables are outside the modelled part "
                         "(the synthesised PE images keep those directories empty)",
-                        "big-endian (MH_CIGAM) and fat Mach-O files are not generated"]
+                        "big-endian (MH_CIGAM) thin Mach-O files are not generated"]
     return run
 
 
